@@ -1,6 +1,6 @@
 (* Property C07 — the same grid reads equal from every supported container format. *)
 From Coq Require Import QArith ZArith Bool Arith List.
-From FC Require Import Model.Structured Proofs.StructuredP.
+From FC Require Import Model.Scalar Model.Mesh Model.Structured Proofs.StructuredP Proofs.StructuredMeshP.
 Import ListNotations.
 Local Open Scope nat_scope.
 
@@ -97,11 +97,23 @@ Theorem C07_from_meshio_pinned_refuted :
 Proof. exact from_meshio_pinned_refuted. Qed.
 Print Assumptions C07_from_meshio_pinned_refuted.
 
+(* the same lattice as image / rectilinear grid (pixels, voxels: x-fastest corner order) and as structured grid or explicit
+   unstructured grid (quads, hexahedra: VTK corner order) passes the mesh comparison of C16's model (points, pairing of
+   compatible cell types, row-by-row comparison of sorted corner lists) for any two kinds, every extent vector with one to
+   three meshed directions, every point list and all tolerances; the row-by-row pairing is also what lines up cell data *)
+Theorem C07_structured_as_explicit : forall k1 k2 P extents rel abs,
+  (0 <= abs)%Q -> 1 <= length (nonzero_extents extents) <= 3 ->
+  mesh_equal rel abs (grid_mesh k1 P extents) (grid_mesh k2 P extents) = true.
+Proof. exact structured_as_explicit. Qed.
+Print Assumptions C07_structured_as_explicit.
+
 Example C07_nonvacuous :
   connectivity Image 8 [2; 0; 1] = [[0; 1; 3; 4]; [1; 2; 4; 5]] /\
   connectivity Curvilinear 9 [2; 0; 1] = [[0; 1; 4; 3]; [1; 2; 5; 4]] /\
   connectivity Curvilinear 12 [1; 1; 1] = [[0; 1; 3; 2; 4; 5; 7; 6]] /\
   connectivity Rectilinear 3 [0; 0; 2] = [[0; 1]; [1; 2]] /\
   locations_in [2; 2] = [[0; 0]; [1; 0]; [0; 1]; [1; 1]] /\
-  num_cells [2; 0; 1] = 2 /\ num_points [2; 0; 1] = 6.
+  num_cells [2; 0; 1] = 2 /\ num_points [2; 0; 1] = 6 /\
+  cells (grid_mesh Image [] [2; 0; 1]) = [(8, [[0; 1; 3; 4]; [1; 2; 4; 5]])] /\
+  cells (grid_mesh Curvilinear [] [2; 0; 1]) = [(9, [[0; 1; 4; 3]; [1; 2; 5; 4]])].
 Proof. vm_compute. repeat split; reflexivity. Qed.
